@@ -712,7 +712,7 @@ class ExprMixin:
                                     elem=elem_of(base) if (base.elem is not None or base.tup or base.is_json) else None, const=None))
             elif base.tup is not None and isinstance(kc, int) and -len(base.tup) <= kc < len(base.tup):
                 outs.append(base.tup[kc])
-                rest2 = rest - {"tuple"}
+                rest2 = (rest - {"tuple"}) if "tuple" in rest else frozenset()
                 if rest2 & {"list", "dict", "json", "any", "str", "range"}:
                     outs.append(elem_of(replace(base, tup=None, types=frozenset(rest2))))
             else:
